@@ -13,7 +13,8 @@ Record cf_case := mkCfCase {
   cf_proc : Z;                         (* real binary: -1 not run, 0 exited with an error, 1 listening, 2 neither, 3 panicked *)
   cf_served : Z;                       (* -1 not run, 1 = answered a plain and a gzip-accepting request correctly, 0 = did not *)
   cf_run_ok : bool;                    (* the copy the binary ran (free ports, harness backend, no TLS / probes) validates and its chain builds *)
-  cf_doc : bool                        (* a shipped file or a documentation snippet *)
+  cf_doc : bool;                       (* a shipped file or a documentation snippet *)
+  cf_startable : bool                  (* oracle: every backend can be registered (names pairwise distinct, every address parses as a URL) *)
 }.
 
 (* correspondence: the translated validator and the factory model against the implementation *)
@@ -36,8 +37,8 @@ Definition mon_docs (k : cf_case) : bool := if cf_doc k then cf_loaded k && cf_c
 (* an accepted configuration starts a working proxy or fails with a clear error: never a panic, never half-configured *)
 Definition mon_starts (k : cf_case) : bool :=
   if 0 <=? cf_proc k then
-    if cf_run_ok k then Z.eqb (cf_proc k) 1 && Z.eqb (cf_served k) 1
-    else Z.eqb (cf_proc k) 0
+    if cf_run_ok k && cf_startable k then Z.eqb (cf_proc k) 1 && Z.eqb (cf_served k) 1
+    else Z.eqb (cf_proc k) 0      (* rejected, or a backend cannot be registered: a clear error, not a proxy with part of its pool *)
   else true.
 
 (* result vector: [diff; mon_spec; mon_docs; mon_starts; nt_c18] *)
